@@ -257,7 +257,7 @@ func diffState(got, want map[string]interface{}) string {
 	return strings.Join(out, ", ")
 }
 
-const probeDoc = `<Ro-ot A-b="1 &amp; 2" c="x"><It-em>  t&lt;1 </It-em><It-em k="v"> t2<Sub>7</Sub></It-em><e/><Num>1.50</Num><B>true</B><N>Inf</N><I>42</I><One z="0">1</One><Zero>0</Zero><T>T</T><Big>18446744073709551615</Big><Ovf>1e999</Ovf><Dot>.5</Dot></Ro-ot>`
+const probeDoc = `<Ro-ot A-b="1 &amp; 2" c="x"><It-em>  t&lt;1 </It-em><It-em k="v"> t2<Sub>7</Sub></It-em><e/><Num>1.50</Num><B>true</B><N>Inf</N><I>42</I><One z="0">1</One><Zero>0</Zero><T>T</T><Big>18446744073709551615</Big><Ovf>1e999</Ovf><Dot>.5</Dot>` + "<Ws>\u00a0n\u00a0</Ws><Ws2>\u2003m\u3000</Ws2><Ws3>\u0085v\u2028</Ws3><Ws4>\ufeffb\u200b</Ws4><Ws5 a=\"  p  \">\t\r\n q \t\r\n</Ws5>" + `</Ro-ot>`
 
 var probeElem = &XElem{Local: "Ro-ot", Attrs: []XAttr{{Local: "A-b", Value: "1 & 2"}, {Local: "c", Value: "x"}}, Items: []XItem{
 	{Kind: kElem, El: &XElem{Local: "It-em", Items: []XItem{{Kind: kText, Text: "  t<1 "}}}},
@@ -274,6 +274,12 @@ var probeElem = &XElem{Local: "Ro-ot", Attrs: []XAttr{{Local: "A-b", Value: "1 &
 	{Kind: kElem, El: &XElem{Local: "Big", Items: []XItem{{Kind: kText, Text: "18446744073709551615"}}}},
 	{Kind: kElem, El: &XElem{Local: "Ovf", Items: []XItem{{Kind: kText, Text: "1e999"}}}},
 	{Kind: kElem, El: &XElem{Local: "Dot", Items: []XItem{{Kind: kText, Text: ".5"}}}},
+	// characters that LOOK like white space at the edges of text: the trimming cut set is package state too
+	{Kind: kElem, El: &XElem{Local: "Ws", Items: []XItem{{Kind: kText, Text: "\u00a0n\u00a0"}}}},
+	{Kind: kElem, El: &XElem{Local: "Ws2", Items: []XItem{{Kind: kText, Text: "\u2003m\u3000"}}}},
+	{Kind: kElem, El: &XElem{Local: "Ws3", Items: []XItem{{Kind: kText, Text: "\u0085v\u2028"}}}},
+	{Kind: kElem, El: &XElem{Local: "Ws4", Items: []XItem{{Kind: kText, Text: "\ufeffb\u200b"}}}},
+	{Kind: kElem, El: &XElem{Local: "Ws5", Attrs: []XAttr{{Local: "a", Value: "  p  "}}, Items: []XItem{{Kind: kText, Text: "\t\n q \t\n"}}}},
 }}
 
 // battery: a fixed set of decode/encode/query results rendered as one string.
